@@ -103,6 +103,21 @@ var variants = map[string][]variant{
 		// base variant 3); they also rewrite front-matter keys in their scope like 8 and 9
 		11: {Content: "---\ntitle: T11\nlayout: main\nn: 5\n---\n" + `<template #sidebar><p data-m="side">S11 {{ title }}</p></template>` + "\n" + `<div data-m="page">P11 <template :n="n * 2" :title="title + '+'"></template>{{ n }} {{ title }} {{ x }}` + inc + `</div>`, LoadOK: true, RenderOK: true, Layout: "main", Include: true},
 		12: {Content: "---\nn: 1\ngreeting: hello\ntitle: T12\n---\n" + `<template #sidebar><p data-m="side">S12 {{ greeting }}</p></template>` + "\n" + `<div data-m="page">P12 <template :n="n + 1" :greeting="greeting + '!'"></template>{{ greeting }} visit {{ n }} {{ x }}` + inc + `</div>`, LoadOK: true, RenderOK: true, Include: true},
+		// 13: front-matter values of non-string YAML types, read type-sensitively (| type, a
+		// registered func(int), | json, arithmetic, date formatting, integers >= 1e6): a value must
+		// have the same Go type whether the render loaded the file or was answered from the cache
+		13: {Content: "---\ntitle: T13\ncount: 3\nbig: 1000000\nhuge: 2147483648\nratio: 1.5\nflag: true\nwhen: 2024-01-02\nstamp: 2024-01-02T03:04:05Z\nnums: [1, 2, 3]\nnested:\n  depth: 4\n---\n" +
+			`<div data-m="page">P13 {{ title }} {{ x }}` +
+			`<code>{{ count | type }} {{ big | type }} {{ huge | type }} {{ ratio | type }} {{ flag | type }} {{ when | type }} {{ nums | type }} {{ nested | type }}</code>` +
+			`<code>{{ big }} {{ huge }} {{ count + 1 }} {{ big * 2 }} {{ ratio }}</code>` +
+			`<code>{{ nums | json }} {{ nested | json }} {{ when | json }}</code>` +
+			`<code>{{ when | formatDate("02.01.2006") }} {{ stamp | formatTime("2006") }} {{ nested.depth | type }} {{ nested.depth + 1 }} {{ times3(count) }}</code>` +
+			`<i v-for="n in nums">{{ n | type }}={{ n }}</i>` + inc + `</div>`, LoadOK: true, RenderOK: true, Include: true},
+		// 14, 15: differ ONLY in the blanks inside string literals of expressions, rendered into
+		// white-space-significant places (<pre>, an attribute value), a v-if against a padded string,
+		// and ordinary text
+		14: {Content: "---\nlabel: Total\nunit: kg\npad: \"x  y\"\n---\n" + `<pre data-m="page">{{ label + ':     ' + unit }}</pre><i :title="'a   b' + unit">t {{ x }}</i><b v-if="pad == 'x  y'">padded</b><p>{{ label + ' |   | ' + unit }}</p><div>` + inc + `</div>`, LoadOK: true, RenderOK: true, Include: true},
+		15: {Content: "---\nlabel: Total\nunit: kg\npad: \"x  y\"\n---\n" + `<pre data-m="page">{{ label + ': ' + unit }}</pre><i :title="'a b' + unit">t {{ x }}</i><b v-if="pad == 'x y'">padded</b><p>{{ label + ' | | ' + unit }}</p><div>` + inc + `</div>`, LoadOK: true, RenderOK: true, Include: true},
 		// 10: a LESS style block whose CSS depends on the imported vars.less (compiled on every
 		// render when the LESS processor is registered; left alone otherwise)
 		10: {Content: "<style type=\"text/css+less\">\n@import \"vars.less\";\n.box {\n  color: @brand;\n}\n</style>\n" + `<div data-m="page" class="box">P10 {{ title }} {{ x }}` + inc + `</div>`, LoadOK: true, RenderOK: true, Include: true, Less: true},
@@ -114,12 +129,17 @@ var variants = map[string][]variant{
 		2: {Content: `<em data-m="comp">C2</em>`, LoadOK: true, RenderOK: true},
 		3: {Content: "---\nnote: [oops\n---\n<i>bad3</i>"},
 		4: {Content: `<span data-m="comp">C4 {{ nofunc(1) }}</span>`, LoadOK: true},
+		// 5, 6: differ only in the blanks inside a string literal of a bound attribute
+		5: {Content: `<input data-m="comp" :value="'k' + ' = ' + 'v'"><pre>{{ 'C5' + ' - ' + 'x' }}</pre>`, LoadOK: true, RenderOK: true},
+		6: {Content: `<input data-m="comp" :value="'k' + '  =  ' + 'v'"><pre>{{ 'C5' + '  -  ' + 'x' }}</pre>`, LoadOK: true, RenderOK: true},
 	},
 	fMain: {
 		0: {Content: `<main data-m="main"><h1>M0 {{ title }}</h1><div v-html="content"></div></main>`, LoadOK: true, RenderOK: true},
 		1: {Content: "---\nlayout: base\n---\n" + `<section data-m="main">M1 {{ title }}<div v-html="content"></div></section>`, LoadOK: true, RenderOK: true, Layout: "base"},
 		2: {Content: "---\nmainvar: MV2\n---\n" + `<article data-m="main">M2 {{ mainvar }}` + inc + `<div v-html="content"></div></article>`, LoadOK: true, RenderOK: true, Include: true},
 		3: {Content: "---\nlayout: {base\n---\n<b>bad3</b>"},
+		// 5: a layout (cached by the NewFS engine) with typed front-matter read type-sensitively
+		5: {Content: "---\ncols: 2\nwide: true\nlimit: 1000000\n---\n" + `<main data-m="main">M5 {{ cols | type }} {{ cols + 1 }} {{ times3(cols) }} {{ limit }} {{ wide | type }}<div v-html="content"></div></main>`, LoadOK: true, RenderOK: true},
 		4: {Content: `<main data-m="main"><aside data-m="slot">M4 <slot name="sidebar"><p>no sidebar</p></slot></aside><div v-html="content"></div></main>`, LoadOK: true, RenderOK: true},
 	},
 	fRel: {
@@ -434,12 +454,23 @@ func execute(c Case) (error, stats) {
 			s.cacheHits++
 		}
 		if got != want {
-			a, err1 := hx.Doc(got, hx.Collapse)
-			b, err2 := hx.Doc(want, hx.Collapse)
-			if err1 != nil || err2 != nil {
-				return fmt.Errorf("%s: outputs differ and cannot be parsed (%v, %v): %q vs %q", where, err1, err2, got, want), s
+			// Both outputs come from the same serialiser, so the statement's "exactly" is taken
+			// literally for everything the HTML parser keeps: text is compared character by
+			// character (all white space included, everywhere), attribute values exactly; only
+			// attribute order and the spelling of the markup itself (quotes, entities) are not
+			// looked at. internal/hx (white space collapsed) is used to word the difference.
+			d, err := strictDiff(got, want)
+			if err != nil {
+				return fmt.Errorf("%s: outputs differ and cannot be parsed (%v): %q vs %q", where, err, got, want), s
 			}
-			if d := hx.Diff(a, b, hx.Options{}); d != "" {
+			if d != "" {
+				a, _ := hx.Doc(got, hx.Collapse)
+				b, _ := hx.Doc(want, hx.Collapse)
+				if hd := hx.Diff(a, b, hx.Options{}); hd != "" {
+					d = hd
+				} else {
+					d += " (white space only)"
+				}
 				return fmt.Errorf("%s: long-lived engine renders something else than an engine created now: %s\n  long-lived: %q\n  fresh:      %q\n  files now:%s",
 					where, d, got, want, describeFiles(fs, m)), s
 			}
@@ -633,6 +664,17 @@ var alphabetFS = append(append([]letter(nil), alphabet...),
 	letter{op: "delete", file: fRel},
 )
 
+// alphabetValues: for enum-values.
+var alphabetValues = []letter{
+	{op: "render", entry: eVueRender},
+	{op: "render", entry: eLoadRender},
+	{op: "render", entry: eVueFrag},
+	{op: "edit", file: fPage, dt: 1},
+	{op: "edit", file: fPage, dt: -1},
+	{op: "edit", file: fComp, dt: 1},
+	{op: "edit", file: fMain, dt: 1},
+}
+
 // alphabetLess: for the LESS engine option.
 var alphabetLess = []letter{
 	{op: "render", entry: eVueRender},
@@ -653,11 +695,15 @@ var enumBad = map[string]int{fPage: 5, fComp: 3, fMain: 3, fBase: 2}
 type engineOpt struct {
 	proc, store string
 	zeroInit    bool
+	pairs       map[string][2]int // overrides enumPair
 }
 
 // nextOf picks the member of the file's alternating pair that differs from what it holds now.
-func nextOf(file string, curV map[string]int) int {
-	p := enumPair[file]
+func nextOf(file string, curV map[string]int, pairs map[string][2]int) int {
+	p, ok := pairs[file]
+	if !ok {
+		p = enumPair[file]
+	}
 	if v, ok := curV[file]; ok && v == p[0] {
 		return p[1]
 	}
@@ -678,7 +724,7 @@ func buildHistory(alpha []letter, init map[string]int, word []int, o engineOpt) 
 		case "block", "unblock":
 			c.Ops = append(c.Ops, Op{Op: l.op, File: l.file})
 		case "arm":
-			v := nextOf(l.file, curV)
+			v := nextOf(l.file, curV, o.pairs)
 			curV[l.file] = v
 			c.Ops = append(c.Ops, Op{Op: "arm", File: l.file, V: v, Dt: l.dt, Ns: l.ns})
 		case "render":
@@ -690,7 +736,7 @@ func buildHistory(alpha []letter, init map[string]int, word []int, o engineOpt) 
 			v := enumBad[l.file]
 			name := l.op
 			if !l.bad {
-				v = nextOf(l.file, curV)
+				v = nextOf(l.file, curV, o.pairs)
 				curV[l.file] = v
 				if !exists[l.file] {
 					name = "recreate"
@@ -782,9 +828,9 @@ func genCase(t *rapid.T) Case {
 	blocked := map[string]bool{}
 	cur := map[string]int{fPage: -1, fComp: -1, fMain: -1, fBase: -1, fRel: -1, fLess: -1} // -1 = absent
 	pick := func(label string, xs []int) int { return rapid.SampledFrom(xs).Draw(t, label) }
-	c.Init[fPage] = pick("init-page", []int{11, 1, 12, 8, 0, 9, 2, 3, 4, 7})
-	c.Init[fComp] = pick("init-comp", []int{0, 1, 2})
-	c.Init[fMain] = pick("init-main", []int{4, 0, 1, 2})
+	c.Init[fPage] = pick("init-page", []int{11, 13, 1, 14, 12, 8, 0, 15, 9, 2, 3, 4, 7})
+	c.Init[fComp] = pick("init-comp", []int{0, 5, 1, 2, 6})
+	c.Init[fMain] = pick("init-main", []int{4, 5, 0, 1, 2})
 	if rapid.Bool().Draw(t, "init-base") {
 		c.Init[fBase] = pick("init-base-v", []int{3, 0, 1})
 	}
@@ -945,7 +991,7 @@ func TestProp(t *testing.T) {
 	defer run.Finish(t, rec)
 	run.Witnesses(rec, prop, replay)
 
-	enumerate(t, "enum", alphabet, stdInits, run.Pick([]int{4, 3}, []int{5, 5}), []engineOpt{{}})
+	enumerate(t, "enum", alphabet, stdInits, run.Pick([]int{3, 3}, []int{5, 5}), []engineOpt{{}})
 	// the same with a registered node processor that edits its nodes in place
 	var procOpts []engineOpt
 	for _, p := range []string{procAttrPrefix, procAttrAppend, procText, procRemove, procAll} {
@@ -957,6 +1003,11 @@ func TestProp(t *testing.T) {
 	// on the mixed-capability overlay, and starting from files that report no mtime
 	enumerate(t, "enum-fs", alphabetFS, stdInits, run.Pick([]int{3, 2}, []int{4, 3}),
 		[]engineOpt{{}, {store: storeOverlayMixed}, {zeroInit: true}})
+	// values: typed front-matter read type-sensitively (page 13, layout 5), and versions of page
+	// and component that differ only in blanks inside string literals (14/15, 5/6)
+	enumerate(t, "enum-values", alphabetValues, []map[string]int{{fPage: 13, fComp: 5, fMain: 5}, {fPage: 14, fComp: 5, fMain: 0}},
+		run.Pick([]int{3, 4}, []int{5, 5}),
+		[]engineOpt{{pairs: map[string][2]int{fPage: {15, 14}, fComp: {6, 5}, fMain: {5, 0}}}})
 	// vuego's LESS processor with a style block importing vars.less
 	enumerate(t, "enum-less", alphabetLess, []map[string]int{{fPage: 10, fComp: 0, fMain: 0, fLess: 0}}, run.Pick([]int{4}, []int{5}),
 		[]engineOpt{{proc: procLess}})
